@@ -234,74 +234,81 @@ SCHEMAS = {
 
 # ---------------------------------------------------------------------- L3
 def _generic_builder(ck, fn: ast.FunctionDef) -> None:
+    """Clause-by-clause check of the generic column-by-column builder; local names are discovered by role."""
+    from ..paths import Path
+
     S = ('var', fn.args.args[0].arg)
-    env: dict = {}
-    body_fn = None
-    loop = None
-    for st in fn.body:
-        if isinstance(st, ast.For):
-            loop = st
+    loop = next((st for st in fn.body if isinstance(st, ast.For)), None)
     if loop is None:
         ck.bad('L3', fn, 'the generic as_matrix no longer iterates over the input leaves', instance='leaf loop')
         return
-    pre = [('stmt', st) for st in fn.body if isinstance(st, (ast.Assign, ast.AnnAssign))]
-    from ..paths import Path
-
+    pre = [('stmt', st) for st in fn.body[: fn.body.index(loop)] if isinstance(st, (ast.Assign, ast.AnnAssign))]
     env = path_env(Path(pre))
-    leaves_t = env.get('in_leaves_ref')
     flat = ('call', ('attr', ('attr', ('var', 'jax'), 'tree'), 'flatten'), (('call', ('var', 'zeros_like'), (('IN', S),), ()),), ())
-    ck.expect('L3', leaves_t == ('item', flat, 0) and env.get('in_treedef') == ('item', flat, 1), fn,
+    leaves_name = next((k for k, v in env.items() if v == ('item', flat, 0)), None)
+    treedef_name = next((k for k, v in env.items() if v == ('item', flat, 1)), None)
+    ck.expect('L3', leaves_name is not None and treedef_name is not None, fn,
               'input leaves and treedef come from jax.tree.flatten(zeros_like(self.in_structure())): columns follow pytree leaf order',
-              f'the reference input is not the flattened zero pytree of in_structure(): {show(leaves_t)}', instance='input leaves')
-    m = env.get('matrix')
-    shape_ok = m is not None and m[0] == 'call' and m[2] and m[2][0] == ('tuple', ('call', ('attr', S, 'out_size'), (), ()), ('call', ('attr', S, 'in_size'), (), ()))
-    ck.expect('L3', shape_ok, fn, 'matrix has shape (out_size, in_size)', f'matrix allocated as {show(m)}', instance='matrix shape')
+              'the reference input is not the flattened zero pytree of in_structure()', instance='input leaves')
+    shape_t = ('tuple', ('call', ('attr', S, 'out_size'), (), ()), ('call', ('attr', S, 'in_size'), (), ()))
+    matrix_name = next((k for k, v in env.items() if isinstance(v, tuple) and v[0] == 'call' and v[2] and v[2][0] == shape_t), None)
+    ck.expect('L3', matrix_name is not None, fn, 'matrix has shape (out_size, in_size)', 'no buffer of shape (out_size(), in_size()) is allocated', instance='matrix shape')
     it = term(loop.iter, env)
-    ck.expect('L3', it == ('call', ('var', 'enumerate'), (leaves_t,), ()), fn, 'one pass per input leaf, in order', f'the loop iterates {show(it)}', instance='leaf loop')
-    names = [n.id for n in loop.target.elts] if isinstance(loop.target, ast.Tuple) else []
+    leaves_t = ('item', flat, 0)
+    names = [n.id for n in loop.target.elts] if isinstance(loop.target, ast.Tuple) and all(isinstance(n, ast.Name) for n in loop.target.elts) else []
+    ck.expect('L3', it == ('call', ('var', 'enumerate'), (leaves_t,), ()) and len(names) == 2, fn, 'one pass per input leaf, in order', f'the loop iterates {show(it)}', instance='leaf loop')
     body_fn = next((st for st in loop.body if isinstance(st, ast.FunctionDef)), None)
     fori = next((st for st in loop.body if isinstance(st, ast.Assign) and isinstance(st.value, ast.Call) and ast.unparse(st.value.func).endswith('fori_loop')), None)
-    if body_fn is None or fori is None or len(names) != 2:
+    if body_fn is None or fori is None or len(names) != 2 or leaves_name is None or treedef_name is None:
         ck.bad('L3', fn, 'the per-element loop body / fori_loop of the generic as_matrix vanished', instance='element loop')
         return
-    ileaf, leaf = names
+    ileaf, leaf = ('var', names[0]), ('var', names[1])
     fa = [term(a) for a in fori.value.args]
-    ck.expect('L3', len(fa) == 4 and fa[0] == ('const', '0') and fa[1] == ('attr', ('var', leaf), 'size') and fa[2] == ('var', body_fn.name), fn,
+    ck.expect('L3', len(fa) == 4 and fa[0] == ('const', '0') and fa[1] == ('attr', leaf, 'size') and fa[2] == ('var', body_fn.name), fn,
               'one column per element of the leaf: fori_loop(0, leaf.size, body, ...)', f'element loop is {[show(a) for a in fa]}', instance='element loop')
-    # inside body
-    index = body_fn.args.args[0].arg
-    benv = path_env(Path([('stmt', st) for st in body_fn.body if isinstance(st, (ast.Assign, ast.AugAssign))]))
-    unit = None
-    for st in body_fn.body:
-        if isinstance(st, ast.Assign) and isinstance(st.targets[0], ast.Subscript):
-            tgt = term(st.targets[0])
-            if tgt == ('sub', ('var', 'zeros'), ('var', ileaf)):
-                unit = term(st.value)
-    want_unit = ('call', ('attr', ('call', ('attr', ('sub', ('attr', ('call', ('attr', ('var', leaf), 'ravel'), (), ()), 'at'), ('var', index)), 'set'), (('const', '1'),), ()), 'reshape'), (('attr', ('var', leaf), 'shape'),), ())
-    ck.expect('L3', unit == want_unit, body_fn, 'the basis vector has a single 1 at flat (row-major) position `index` of leaf `ileaf`',
-              f'the basis vector is built as {show(unit)}', instance='unit entry')
-    out_t = benv.get('out_pytree')
-    in_t = benv.get('in_pytree')
-    ck.expect('L3', out_t == ('apply', S, in_t) and in_t == ('call', ('attr', ('attr', ('var', 'jax'), 'tree'), 'unflatten'), (('var', 'in_treedef'), benv.get('zeros')), ()), body_fn,
-              'the column is self.mv(basis pytree rebuilt with the input treedef)', f'the column is computed as {show(out_t)}', instance='column = mv(basis)')
-    leaves_out = benv.get('out_leaves')
-    want_leaves = None
-    ok_rows = False
-    if leaves_out is not None and leaves_out[0] == 'comp':
-        tgt, itr, ifs = leaves_out[2][0]
-        ok_rows = leaves_out[1] == ('call', ('attr', tgt, 'ravel'), (), ()) and itr == ('call', ('attr', ('attr', ('var', 'jax'), 'tree'), 'leaves'), (out_t,), ())
-    ck.expect('L3', ok_rows, body_fn, 'rows are the ravelled output leaves in jax.tree.leaves order', f'rows are {show(leaves_out)}', instance='row order')
-    setcol = None
-    incr = False
-    for st in body_fn.body:
-        if isinstance(st, ast.Assign) and isinstance(st.targets[0], ast.Name) and st.targets[0].id == 'matrix':
-            setcol = term(st.value, {})
-        if isinstance(st, ast.AugAssign) and isinstance(st.target, ast.Name) and st.target.id == 'jcounter' and isinstance(st.op, ast.Add) and term(st.value) == ('const', '1'):
-            incr = True
-    want_set = ('call', ('attr', ('sub', ('attr', ('var', 'matrix'), 'at'), ('tuple', ('slice', ('none',), ('none',), ('none',)), ('var', 'jcounter'))), 'set'),
-                (('call', ('attr', ('var', 'jnp'), 'concatenate'), (('var', 'out_leaves'),), ()),), ())
-    ck.expect('L3', setcol == want_set and incr, body_fn, 'column jcounter is written once and jcounter advances by one per input element',
-              f'column write is {show(setcol)}, counter increment present={incr}', instance='column write')
+    if len(body_fn.args.args) != 2:
+        ck.bad('L3', body_fn, 'the loop body no longer takes (index, carry)', instance='element loop body')
+        return
+    index, carry = ('var', body_fn.args.args[0].arg), ('var', body_fn.args.args[1].arg)
+    rets = [st for st in body_fn.body if isinstance(st, ast.Return)]
+    if len(rets) != 1:
+        ck.bad('L3', body_fn, 'the loop body no longer has a single return', instance='element loop body')
+        return
+    benv = path_env(Path([('stmt', st) for st in body_fn.body if isinstance(st, (ast.Assign, ast.AugAssign))]), track_items=True)
+    rt = term(rets[0].value, benv)
+    m0, j0 = ('item', carry, 0), ('item', carry, 1)
+    unit = ('call', ('attr', ('call', ('attr', ('sub', ('attr', ('call', ('attr', leaf, 'ravel'), (), ()), 'at'), index), 'set'), (('const', '1'),), ()), 'reshape'), (('attr', leaf, 'shape'),), ())
+    zeros = ('setitem', ('call', ('attr', ('var', leaves_name), 'copy'), (), ()), ileaf, unit)
+    in_pytree = ('call', ('attr', ('attr', ('var', 'jax'), 'tree'), 'unflatten'), (('var', treedef_name), zeros), ())
+    out_pytree = ('apply', S, in_pytree)
+    ok_shape = rt[0] == 'tuple' and len(rt) == 3
+    col = rt[1] if ok_shape else None
+    cnt = rt[2] if ok_shape else None
+    # column write: M.at[:, j].set(concatenate([l.ravel() for l in tree.leaves(out)]))
+    good_unit = good_col = good_rows = good_write = False
+    if col is not None and col[0] == 'call' and col[1][0] == 'attr' and col[1][2] == 'set' and col[1][1] == ('sub', ('attr', m0, 'at'), ('tuple', ('slice', ('none',), ('none',), ('none',)), j0)) and len(col[2]) == 1:
+        good_write = True
+        val = col[2][0]
+        if val[0] == 'call' and val[1] == ('attr', ('var', 'jnp'), 'concatenate') and val[2] and val[2][0][0] == 'comp':
+            c = val[2][0]
+            tgt, itr, ifs = c[2][0]
+            good_rows = c[1] == ('call', ('attr', tgt, 'ravel'), (), ()) and itr[0] == 'call' and itr[1] == ('attr', ('attr', ('var', 'jax'), 'tree'), 'leaves') and not ifs
+            if good_rows:
+                out = itr[2][0]
+                good_col = out == out_pytree
+                good_unit = good_col or (out[0] == 'apply' and out[1] == S and out[2][0] == 'call' and out[2][2][1:] and out[2][2][1][0] == 'setitem' and out[2][2][1][3] == unit)
+                if not good_col and out[0] == 'apply' and out[1] == S:
+                    inner = out[2]
+                    good_col = inner[0] == 'call' and inner[1] == in_pytree[1] and inner[2][0] == ('var', treedef_name)
+    ck.expect('L3', good_unit, body_fn, 'the basis vector has a single 1 at flat (row-major) position `index` of leaf `ileaf`',
+              'the basis pytree is not "zeros with one entry set to 1 at the ravelled position index of the current leaf"', instance='unit entry')
+    ck.expect('L3', good_col, body_fn, 'the column is self.mv(basis pytree rebuilt with the input treedef)', 'the column is not self.mv applied to the basis pytree', instance='column = mv(basis)')
+    ck.expect('L3', good_rows, body_fn, 'rows are the ravelled output leaves in jax.tree.leaves order', 'rows are not the concatenated ravelled output leaves', instance='row order')
+    ck.expect('L3', good_write and cnt == ('binop', '+', j0, ('const', '1')), body_fn, 'column j is written once and j advances by one per input element',
+              f'column write / counter update is {show(col)[:80]} / {show(cnt)}', instance='column write')
+    init_carry = fa[3] if len(fa) == 4 else None
+    ck.expect('L3', init_carry is not None and init_carry[0] == 'tuple' and len(init_carry) == 3 and init_carry[1] == ('var', matrix_name), fn, 'the carry is (matrix, column counter)',
+              f'the carry is {show(init_carry)}', instance='carry', nontrivial=False)
 
 
 def controls(world: World) -> list[Control]:
